@@ -130,6 +130,16 @@ def c02():
                    "all_top_level_on_own_channel": all(len(b["p"]) == 1 and b["c"] == [0, b["p"][0]] for b in bad)}
             v.violation("%s (%s): at quiescence %d process(es) stuck: %s" % (r["prog"], r["mode"], len(bad), json.dumps(bad)[:300]),
                         {"program": text[r["prog"]], "run": r["id"], "stuck": bad}, sig)
+    for r in (c.get("replay") or {}).get("records", []):
+        if r["verdict"] not in ("agree", "diverged") or r["crash"] or r.get("hang") or r.get("late") or r["mode"] == "np" or r.get("blocked") is None:
+            continue
+        judged += 1
+        bad = _blocked_bad(r)
+        if bad:
+            sig = {"program": r["prog"], "stuck_kinds": sorted({b["kind"] for b in bad}),
+                   "all_top_level_on_own_channel": all(len(b["p"]) == 1 and b["c"] == [0, b["p"][0]] for b in bad)}
+            v.violation("%s (%s): after following a schedule of the specification through the gate, %d process(es) are stuck at quiescence: %s" % (r["prog"], r["mode"], len(bad), json.dumps(bad)[:300]),
+                        {"program": text[r["prog"]], "run": r["id"], "plan": r["plan"], "stuck": bad}, sig)
     _model_issues(c, v, ("QuiescentClean",))
     cov = _common_coverage(c, {"runs_judged_at_quiescence": judged})
     vlib.write_evidence("C02", "model_checking", cov, time.time() - t0, len(v.violations), ASSUME)
@@ -161,8 +171,8 @@ def c03():
     # schedules chosen by TLC in the specifications and forced on the real interpreter by the gate: the outcome must be the one the other runs gave
     replayed = 0
     for r in (c.get("replay") or {}).get("records", []):
-        if r["verdict"] not in ("agree", "outcome") or r["crash"] or r["prints"] is None:
-            continue
+        if r["verdict"] not in ("agree", "outcome", "diverged") or r["crash"] or r["prints"] is None or r.get("hang") or r.get("late"):
+            continue     # (a run that left the plan finished on its own: what it printed is an observation of the real code all the same)
         if r["mode"] == "np" and not info[r["prog"]]["cfree"]:
             continue
         replayed += 1
